@@ -107,7 +107,7 @@ def _strip(case):
 
 
 # ---------------------------------------------------------------------------
-def _flake_pair(case, k=None):
+def _flake_pair(case, k=None, op=None):
     """Snowflake 1x1x1 (direct formulation, controlled nucleation at the end of the hold, spontaneous
     nucleation switched off by a tiny kb) and Snowing-0D with cnTemp = the Snowflake nucleation temperature"""
     import yaml
@@ -115,9 +115,18 @@ def _flake_pair(case, k=None):
     from ethz_snow.operatingConditions import OperatingConditions
 
     K = case["K_shelf"]
-    op = OperatingConditions(t_tot=case["t_tot"], cooling={"rate": case["rate"], "start": case["start"],
-                                                           "end": case["stop"]},
-                             holding=[dict(temp=case["hold"][0], duration=case["hold"][1])], cnTemp=case["hold"][0])
+    shared_op = op is not None
+    if op is None:
+        op = OperatingConditions(t_tot=case["t_tot"], cooling={"rate": case["rate"], "start": case["start"],
+                                                               "end": case["stop"]},
+                                 holding=[dict(temp=case["hold"][0], duration=case["hold"][1])],
+                                 cnTemp=case["hold"][0])
+    else:
+        # ONE OperatingConditions object shared by every model object of the history, edited IN PLACE
+        op.t_tot = case["t_tot"]
+        op.cooling["rate"], op.cooling["start"], op.cooling["end"] = case["rate"], case["start"], case["stop"]
+        op.holding = [dict(temp=case["hold"][0], duration=case["hold"][1])]
+        op.cnTemp = case["hold"][0]
     fd, path = tempfile.mkstemp(suffix=".yaml", prefix="flake_")
     try:
         with os.fdopen(fd, "w") as f:
@@ -146,7 +155,9 @@ def _flake_pair(case, k=None):
               cn=Tn + 1e-9, seed=0, kinetics={"a": 80.0})
     if case.get("solution"):
         c0["solution"] = dict(case["solution"])
-    r = u.run_real_full(c0, k=k)
+    if shared_op:
+        op.cnTemp = Tn + 1e-9      # the 0D model nucleates when the product reaches cnTemp
+    r = u.run_real_full(c0, k=k, opcond=(op if shared_op else None))
     if r["raise"]:
         return {"raise": r["raise"]}
     T0, w0 = r["temp"], r["ice"]
@@ -272,6 +283,23 @@ def run_impl(case):
             return _flake_pair(case)
         except Exception as e:
             return {"raise": core.exc_class(e)}
+    if kind == "flake0D_sharedop":
+        from ethz_snow.operatingConditions import OperatingConditions
+        first = case["programs"][0]
+        op = OperatingConditions(t_tot=first["t_tot"], cooling={"rate": first["rate"], "start": first["start"],
+                                                                "end": first["stop"]},
+                                 holding=[dict(temp=first["hold"][0], duration=first["hold"][1])],
+                                 cnTemp=first["hold"][0])
+        items = []
+        try:
+            for prog in case["programs"]:
+                it = _flake_pair(dict(prog, K_shelf=case["K_shelf"]), op=op)
+                it["K_shelf"] = case["K_shelf"]
+                items.append(it)
+        except Exception as e:
+            return {"raise": core.exc_class(e)}
+        bad = [it for it in items if it.get("raise")]
+        return {"raise": bad[0]["raise"] if bad else None, "items": items}
     if kind == "flake0D_sweep":
         # one heat-transfer dict for the whole sweep: Snowflake and Snowing built from it alternately
         k = {"int": 0, "ext": 0, "s0": case["K_list"][0], "s_sigma_rel": 0}
@@ -398,6 +426,9 @@ def predicates(case, impl):
     elif kind == "flake0D_sweep":
         for n, it in enumerate(impl["items"]):
             out += _flake_preds(it, f"shared-k#{n}")
+    elif kind == "flake0D_sharedop":
+        for n, it in enumerate(impl["items"]):
+            out += _flake_preds(it, f"shared-opcond#{n}")
     elif kind == "thin":
         if impl["curve_excess"] > 0.05:
             out.append(Failure(clause="thin_limit_curve", key="thin_limit_curve|_run_1D|",
@@ -423,7 +454,7 @@ def classify(case, impl):
     if case.get("kind") == "pair2D1D" and not impl.get("raise"):
         tags.append(f"pair: gap={impl['gap_cooling']:.3g}K late={impl.get('gap_late', 0):.3g}K "
                     f"tsol {impl['stats2D'][5]:.3f}/{impl['stats1D'][5]:.3f}")
-    if case.get("kind") == "flake0D_sweep" and not impl.get("raise"):
+    if case.get("kind") in ("flake0D_sweep", "flake0D_sharedop") and not impl.get("raise"):
         tags.append("sweep: " + " ".join(f"K={it['K_shelf']}:tsol {it['tsol_flake']:.1f}/{it['tsol_0D']:.1f}" for it in impl["items"]))
     if case.get("kind") == "flake0D" and not impl.get("raise"):
         tags.append(f"flake: tsol {impl['tsol_flake']:.1f}/{impl['tsol_0D']:.1f}s")
@@ -458,6 +489,9 @@ def cases(rng, tier):
                    dict(kind="flake0D", K_shelf=400, start=20, stop=-50, rate=0.1, hold=[-10.0, 600], t_tot=3000)]
     for c in flakes:
         yield c
+    P1 = dict(start=20, stop=-50, rate=0.05, hold=[-8.0, 1200], t_tot=4000)
+    yield dict(kind="flake0D_sharedop", K_shelf=200,
+               programs=[P1, dict(P1, hold=[-6.0, 1500], rate=0.1)] + ([] if tier == "quick" else [dict(P1, start=10, t_tot=3600)]))
     yield dict(kind="flake0D_sweep", K_list=[200, 400] if tier == "quick" else [200, 400, 100], start=20, stop=-50,
                rate=0.05, hold=[-8.0, 1200], t_tot=4000)
     thin = [dict(kind="thin", height=0.01, K_shelf=20, rate=0.5, t_tot=3500),
